@@ -487,6 +487,17 @@ theorem is_valid_tld_puny_insensitive (puny : Str → Str) (laws : PunyLaws puny
   have h1 : '.' ∉ puny (lower l) := laws.noDot _ (not_mem_lower_dot l hl)
   simp only [isValidTld, lstripChars_of_not_mem _ hl, lstripChars_of_not_mem _ h1, laws.idem]
 
+/-- **two spellings that decode alike get the same verdict**: whenever the codec maps the
+lower-cased forms of two (dot-free) labels to the same label — `XN--P1AI`, `xn--p1ai` and `рф`
+under a decoder that knows `xn--p1ai` — `is_valid_tld` answers alike; no law needed.  With
+`is_valid_tld_puny_insensitive` (a label and what it decodes to: the law `idem`) this is the
+"punycode-insensitively" of the property; `punyLaws_demo` below shows a NON-identity decoder
+satisfying the laws, with both spellings of `рф` accepted. -/
+theorem is_valid_tld_same_decoding (puny : Str → Str) (tlds : List Str) (a b : Str)
+    (ha : '.' ∉ a) (hb : '.' ∉ b) (h : puny (lower a) = puny (lower b)) :
+    isValidTld puny tlds a = isValidTld puny tlds b := by
+  simp only [isValidTld, lstripChars_of_not_mem _ ha, lstripChars_of_not_mem _ hb, h]
+
 /-- the hypothesis structure is satisfiable: the identity decoder obeys `PunyLaws` -/
 theorem punyLaws_id : PunyLaws (fun s => s) := by
   refine ⟨?_, fun s h => h⟩
@@ -505,6 +516,33 @@ theorem punyLaws_id : PunyLaws (fun s => s) := by
       rw [char_le_iff, char_le_iff, h1, h2, toNat_ofNat_small _ (by omega)]; omega
     simp [hn]
   · rfl
+
+/-- a decoder that knows one label, `xn--p1ai` ↦ `рф`: it satisfies the laws and is not the
+identity -/
+def punyDemo (l : Str) : Str := if l = "xn--p1ai".toList then "рф".toList else l
+
+theorem punyLaws_demo : PunyLaws punyDemo := by
+  refine ⟨fun s => ?_, fun s hd => ?_⟩
+  · unfold punyDemo
+    by_cases h : lower s = "xn--p1ai".toList
+    · rw [if_pos h]; decide
+    · rw [if_neg h, Ural.TldUrl.lower_idem, if_neg h]
+  · unfold punyDemo
+    by_cases h : s = "xn--p1ai".toList
+    · rw [if_pos h]; decide
+    · rw [if_neg h]; exact hd
+
+/-- non-vacuity of the punycode clause: the ACE spelling (any case), the Unicode spelling, both
+through `has_valid_tld` on a hostname — and a label that decodes to something else -/
+example :
+    isValidTld punyDemo ["рф".toList] "XN--P1AI".toList = true ∧
+    isValidTld punyDemo ["рф".toList] "рф".toList = true ∧
+    isValidTld punyDemo ["рф".toList] ".xn--p1ai".toList = true ∧
+    isValidTld (fun s => s) ["рф".toList] "xn--p1ai".toList = false ∧
+    hasValidTld punyDemo ["рф".toList] (some "кремль.Xn--P1ai".toList) = true ∧
+    isValidTld punyDemo ["рф".toList] "xn--p1aj".toList = false ∧
+    punyDemo (lower "XN--P1AI".toList) = punyDemo (lower "рф".toList) := by
+  decide +kernel
 
 /-! ## The hostname given inside a URL
 
@@ -570,6 +608,36 @@ theorem url_psl_spec (pub priv : List Str) (url hn : Str) (hh : urlHost url = .o
   rw [split_spec _ _ hs, extract_domain_name_spec _ _ hs, has_valid_spec _ _ hs,
     extract_suffix_spec _ _ hs]
   refine ⟨?_, ?_, ?_, ?_⟩ <;> first | rfl | trivial
+
+/-- **`split_suffix(url)` re-joins to the lower-cased hostname of the URL** (`split_rejoin` on the
+URL string): the two parts are `("", host)` for a bare suffix, else `first + "." + second` is the
+hostname the parser extracted, lower-cased, without trailing dots. -/
+theorem url_split_rejoin (pub priv : List Str) (url hn d s : Str)
+    (hh : urlHost url = .ok (some hn)) (hs : isSpecialHost hn = false)
+    (h : splitSuffixUrl pub priv url = .ok (some (d, s))) :
+    (hostLen (pub ++ priv) hn = some (hostParts hn).length ∧ d = [] ∧ s = hostStr hn) ∨
+      d ++ '.' :: s = hostStr hn := by
+  obtain ⟨h1, _⟩ := (url_functions_via_host pub priv (fun s => s) [] url).1 _ hh
+  rw [h1] at h
+  simp only [Except.ok.injEq] at h
+  exact split_rejoin (pub ++ priv) hn d s hs h
+
+/-- **`get_domain_name(url)` is the suffix of `split_suffix(url)` plus exactly one more label**
+(`domain_is_suffix_plus_one` on the URL string) — the host itself when it is a bare suffix -/
+theorem url_domain_is_suffix_plus_one (pub priv : List Str) (url hn d s dom : Str)
+    (hh : urlHost url = .ok (some hn)) (hs : isSpecialHost hn = false)
+    (h1 : splitSuffixUrl pub priv url = .ok (some (d, s)))
+    (h2 : getDomainNameUrl pub priv url = .ok (some dom)) :
+    ∃ n, hostLen (pub ++ priv) hn = some n ∧
+      ((n = (hostParts hn).length ∧ dom = s ∧ dom = hostStr hn) ∨
+       (n < (hostParts hn).length ∧
+          ∃ lab, (hostParts hn)[(hostParts hn).length - n - 1]? = some lab ∧
+            dom = lab ++ '.' :: s)) := by
+  obtain ⟨e1, e2, _⟩ := (url_functions_via_host pub priv (fun s => s) [] url).1 _ hh
+  rw [e1] at h1
+  rw [e2] at h2
+  simp only [Except.ok.injEq] at h1 h2
+  exact domain_is_suffix_plus_one (pub ++ priv) hn d s dom hs h1 h2
 
 /-- **The negative cases, as the code treats them**: a URL without hostname (`""`, `/path`,
 `http://`, `http:///p`, `//`), or whose hostname is special (`localhost`, `1.2.3.4`, the text
@@ -724,6 +792,56 @@ theorem url_psl_of_parts (pub priv : List Str)
   rw [a, b, c, hp', hl']
   exact ⟨rfl, rfl, rfl⟩
 
+/-- … and re-join / suffix-plus-one for assembled URLs: whatever the lead, userinfo, port and
+rest, the two parts of `split_suffix` re-join to the lower-cased host text without trailing dots,
+and `get_domain_name` is the suffix plus one label -/
+theorem url_rejoin_of_parts (pub priv : List Str)
+    (l : Lead) (ui : Option Str) (host : Str) (port : Option Str)
+    (rest : Str) (hl : l.Ok (netlocOf ui host port ++ rest)) (hu : UiChars ui)
+    (hh : HostChars host) (hp : PortChars port) (hc : NetlocChars (netlocOf ui host port))
+    (hr : RestOk rest) (hs : isSpecialHost (lower host) = false) (d s : Str)
+    (h : splitSuffixUrl pub priv (assemble l ui host port rest) = .ok (some (d, s))) :
+    ((d = [] ∧ s = hostStr host) ∨ d ++ '.' :: s = hostStr host) ∧
+    ∃ dom, getDomainNameUrl pub priv (assemble l ui host port rest) = .ok (some dom) ∧
+      (dom = s ∨ ∃ lab ∈ hostParts host, dom = lab ++ '.' :: s) := by
+  have hhost := url_host_of_parts l ui host port rest hl hu hh hp hc hr
+  have hstr : hostStr (lower host) = hostStr host := by simp only [hostStr, lower_idem]
+  have hparts : hostParts (lower host) = hostParts host := by simp only [hostParts, lower_idem]
+  constructor
+  · rcases url_split_rejoin pub priv _ _ d s hhost hs h with ⟨_, h1, h2⟩ | h1
+    · exact Or.inl ⟨h1, by rw [h2, hstr]⟩
+    · exact Or.inr (by rw [h1, hstr])
+  · obtain ⟨a, b, _⟩ := url_psl_spec pub priv _ _ hhost hs
+    rw [a] at h
+    cases hlen : hostLen (pub ++ priv) (lower host) with
+    | none => rw [hlen] at h; simp at h
+    | some n =>
+      rw [hlen] at b
+      refine ⟨_, b, ?_⟩
+      obtain ⟨n', hn', hcase⟩ := url_domain_is_suffix_plus_one pub priv _ _ d s _ hhost hs
+        (by rw [a]; exact h) b
+      rcases hcase with ⟨_, h1, _⟩ | ⟨_, lab, hlab, h1⟩
+      · exact Or.inl h1
+      · exact Or.inr ⟨lab, hparts ▸ List.mem_of_getElem? hlab, h1⟩
+
+/-- **NFKC look-alikes of the delimiters make every function raise.**  An authority that holds
+a character whose compatibility form contains one of `/ ? # @ :` (U+FF0F `／`, U+FF1A `：`,
+U+2100 `℀`, … — `nfkcDelim`, the regenerated table) is refused by `urlsplit` (`_checknetloc`):
+`split_suffix`, `get_domain_name`, `has_valid_suffix`, `has_valid_tld` raise `ValueError`, they
+do not answer for the host `ａ／b.com`.  This is the complement of `NetlocChars` in
+`url_host_of_parts` / `url_psl_of_parts` (whose third conjunct excludes exactly these). -/
+theorem url_nfkc_rejected (pub priv : List Str) (puny : Str → Str) (tlds : List Str)
+    (l : Lead) (nl rest : Str) (hl : l.Ok (nl ++ rest)) (hnl : NetlocSyntax nl)
+    (hr : RestOk rest) (hx : nfkcRejects nl = true) :
+    urlHost (l.str ++ nl ++ rest) = .error .valueError ∧
+    splitSuffixUrl pub priv (l.str ++ nl ++ rest) = .error .valueError ∧
+    getDomainNameUrl pub priv (l.str ++ nl ++ rest) = .error .valueError ∧
+    hasValidSuffixUrl pub priv (l.str ++ nl ++ rest) = .error .valueError ∧
+    hasValidTldUrl puny tlds (l.str ++ nl ++ rest) = .error .valueError := by
+  have h := urlHost_lead_nfkc l nl rest hl hnl hr hx
+  obtain ⟨a, b, c, _, e⟩ := (url_functions_via_host pub priv puny tlds _).2 _ h
+  exact ⟨h, a, b, c, e⟩
+
 /-- `HostChars` survives a trailing dot -/
 theorem hostChars_dot (host : Str) (hh : HostChars host) : HostChars (host ++ ['.']) := by
   obtain ⟨h0, h1, h2, h3, h4, h5⟩ := hh
@@ -826,6 +944,19 @@ example : urlHost "abc://x".toList = .ok (some "x".toList) ∧
 -- `AlphaProto` of `Lead.Ok` is needed
 example : urlHost "svn+ssh://a.co.uk/".toList = .ok (some "svn+ssh".toList) := by decide +kernel
 
+-- the NFKC check: fullwidth solidus / colon / commercial at, `℀` (a/c) in the authority
+example : splitSuffixUrl linesS [] "http://ａ／b.co.uk/".toList = .error .valueError ∧
+    urlHost "http://a：b.co.uk/".toList = .error .valueError ∧
+    urlHost "u＠a.co.uk".toList = .error .valueError ∧
+    urlHost "//℀.co.uk".toList = .error .valueError ∧
+    -- … but not behind the authority, and not for other fullwidth characters
+    urlHost "http://a.co.uk/／".toList = .ok (some "a.co.uk".toList) ∧
+    urlHost "http://ａ.co.uk/".toList = .ok (some "ａ.co.uk".toList) := by
+  decide +kernel
+example : NetlocSyntax "ａ／b.co.uk".toList ∧ nfkcRejects "ａ／b.co.uk".toList = true ∧
+    ¬ NetlocChars "ａ／b.co.uk".toList ∧ NetlocChars "ａ.co.uk".toList := by
+  decide +kernel
+
 end NonVacuityUrl
 
 end Url
@@ -837,6 +968,14 @@ every probe host regenerated from the source for this run -/
 theorem special_hosts_probes :
     Ural.Gen.SpecialHostsRe.probes.all (fun p => isSpecialHost p.1 == p.2) = true := by
   decide +kernel
+
+/-- the NFKC check of `urlsplit` may be made character by character (no canonical decomposition
+of the running Unicode database has a delimiter as a component, so recomposition never absorbs
+one), and the refused code points are all non-ASCII (`netloc.isascii()` short-cut).  The table
+itself is free to change with the Unicode version. -/
+theorem nfkc_check_charwise :
+    Gen.nfkcCharwise = true ∧ Gen.nfkcDelimCodes.all (fun n => decide (128 ≤ n)) = true ∧
+    Gen.nfkcDelimCodes ≠ [] := by decide
 
 /-- the pattern of `PROTOCOL_RE` found in the source is the one `protoLen` (used by the model
 of `safe_urlsplit`) was written for -/
